@@ -88,6 +88,15 @@ func genFileInfo(t *rapid.T, label string, allowMTime bool) *FileInfoSpec {
 		return nil
 	}
 	fi := &FileInfoSpec{}
+	if rapid.IntRange(0, 5).Draw(t, label+".complete") == 0 {
+		// everything declared: nothing is left to default
+		fi.Owner, fi.Group = userName.Draw(t, label+".owner"), userName.Draw(t, label+".group")
+		fi.Mode = uint32(rapid.IntRange(1, 0o777).Draw(t, label+".mode"))
+		if allowMTime {
+			fi.MTime = genMTime(t, label+".mtime")
+		}
+		return fi
+	}
 	if rapid.Bool().Draw(t, label+".owner?") {
 		fi.Owner = userName.Draw(t, label+".owner")
 	}
@@ -229,7 +238,7 @@ func relTo(from, to string) string {
 // ---------- destinations ----------
 
 var dstPrefixes = []string{"/opt/app", "/usr/share/foo", "/etc/foo", "/var/lib/my app", "/srv/données", "/usr/lib/foo/bar", "/opt/x/y/z",
-	"/+extras", "/.BUILD/x", "/-opt", "/.1st", "/ lead"}
+	"/+extras", "/.BUILD/x", "/-opt", "/.1st", "/ lead", "/x/y", "/o"}
 
 // spellDst returns an alternative spelling of an absolute clean path that denotes the same node.
 func spellDst(t *rapid.T, label, clean string, allowTrailing bool) string {
@@ -368,7 +377,7 @@ func genContents(t *rapid.T, c *BuildCase, o contentOpts) {
 			}
 		case kind <= 9: // explicit directory, sometimes on a shared prefix (taking the place of an implied one)
 			e.Type = "dir"
-			e.FI = genFileInfo(t, lbl+".fi", false)
+			e.FI = genFileInfo(t, lbl+".fi", true)
 			e.Form = "none"
 			if rapid.Bool().Draw(t, lbl+".onprefix") && !explicitDirs[prefix] && e.Packager == "" {
 				explicitDirs[prefix] = true
@@ -413,6 +422,30 @@ func genContents(t *rapid.T, c *BuildCase, o contentOpts) {
 			c.Tree = append(c.Tree, u.nodes...)
 			e.Src = u.files[0]
 			e.Dst = clean
+		}
+		if e.Type != "ghost" && e.Type != "dir" && strings.TrimSpace(e.Dst) == e.Dst && strings.TrimSpace(e.Src) == e.Src && rapid.IntRange(0, 5).Draw(t, lbl+".expand") == 0 {
+			e.Expand = true // no '$' anywhere: expansion must leave the entry exactly as it is
+		}
+		if e.Type == "tree" && rapid.IntRange(0, 2).Draw(t, lbl+".inside") == 0 {
+			// another entry that lives inside the tree's destination (in one of the tree's own directories):
+			// listed before or after the tree, the tree's directory must win over the implied one
+			u := indexTree(c.Tree)
+			dirs := []string{""}
+			root := strings.TrimSuffix(e.Src, "/")
+			for _, n := range u.under(root) {
+				if n.Kind == "dir" {
+					dirs = append(dirs, strings.TrimPrefix(n.Rel, root))
+				}
+			}
+			sub := rapid.SampledFrom(dirs).Draw(t, lbl+".inside.dir")
+			c.Tree = append(c.Tree, FNode{Rel: fmt.Sprintf("src/in%d", i), Kind: "file", Size: 21, Seed: 31 + i, Mode: 0o644, MTime: genMTime(t, lbl+".inside.m")})
+			in := Entry{Src: fmt.Sprintf("src/in%d", i), Dst: clean + sub + fmt.Sprintf("/Inside-%d", i), Form: "single", Packager: e.Packager}
+			if rapid.Bool().Draw(t, lbl+".inside.first") {
+				c.Contents = append(c.Contents, in, e)
+			} else {
+				c.Contents = append(c.Contents, e, in)
+			}
+			continue
 		}
 		c.Contents = append(c.Contents, e)
 	}
